@@ -1,6 +1,227 @@
 (* Properties/C20.v — osmapi calls hit the documented endpoint and map statuses to typed errors.
-   (placeholder while the pipeline is brought up; statements follow) *)
-From Coq Require Import ZArith List String.
-From Verif Require Import C20.Syntax C20.Text C20.Types C20.Model C20.SpecApi.
+
+   ONLY statements, each closed by a lemma of C20/Proofs*.v, Print Assumptions, and examples.
+   [url_of], [call] (C20/Model.v) interpret the URL expressions, option rules, status chain,
+   count guards and NotFound type that translator/cmd/osmapi regenerates from /repo/osmapi on
+   every run (gen/GenOsmapi.v); [spec_path], [spec_query], [request_ok], [status_class],
+   [spec_result] (C20/SpecApi.v) are written from the API v0.6 documentation and never look at
+   the generated file.  fmt/strconv/time/net-url text functions and net/http + encoding/xml are
+   hand models (C20/Text.v, Model.v) tied by the correspondence run (harness/cmd/c20). *)
+From Coq Require Import ZArith List String Ascii Bool.
+From Verif Require Import C20.Syntax C20.Text C20.Types C20.Model C20.SpecApi
+  C20.ProofsText C20.ProofsFloat C20.ProofsUrl C20.ProofsSpec C20.ProofsCall C20.GenOk.
 Import ListNotations.
 Open Scope Z_scope.
+Open Scope list_scope.
+
+(* 1. url_matches_spec.  For every call, every id / version / id list / option list / query
+      string / configured base without '?': the URL handed to the transport, split at its
+      first '?', is base ++ the documented path, and its query, decoded the way a server
+      decodes it (split at '&' and '=', percent-decoding), is the documented parameter list in
+      order.  Bounding-box coordinates are compared as numbers at OSM's resolution (half a unit
+      of the 7th decimal); hypothesis [bbox_six_decimals] excludes exactly the known finding
+      (statement 3). *)
+Theorem C20_url_matches_spec : forall cfg ep,
+  base_ok cfg = true -> options_valid ep = true -> args_finite ep = true ->
+  bbox_six_decimals ep = true ->
+  exists u, url_of cfg ep = Ok u /\ request_ok cfg ep u = true.
+Proof. intros cfg ep Hb Hv Hf Hs. exact (url_matches_spec_at true cfg ep Hb Hv Hf (fun _ => Hs)). Qed.
+Print Assumptions C20_url_matches_spec.
+
+(* 2. the same for ALL finite bounding boxes, coordinates compared at half a unit of the 6th
+      decimal: nothing but the 7th decimal of a bbox coordinate is ever lost *)
+Theorem C20_url_matches_spec_upto_sixth_decimal : forall cfg ep,
+  base_ok cfg = true -> options_valid ep = true -> args_finite ep = true ->
+  exists u, url_of cfg ep = Ok u /\ request_ok_at false cfg ep u = true.
+Proof.
+  intros cfg ep Hb Hv Hf.
+  exact (url_matches_spec_at false cfg ep Hb Hv Hf (fun E => False_ind _ (Bool.diff_false_true E))).
+Qed.
+Print Assumptions C20_url_matches_spec_upto_sixth_decimal.
+
+(* 3. FULL statement (no bbox_six_decimals hypothesis):
+        forall cfg ep, base_ok cfg = true -> options_valid ep = true -> args_finite ep = true ->
+          exists u, url_of cfg ep = Ok u /\ request_ok cfg ep u = true
+      is FALSE of the code: Notes with MaxLat = 1.1234564 requests ...,1.123456
+      (known finding bbox-coordinate-needs-7th-decimal, replayed by the harness corpus). *)
+Theorem C20_url_matches_spec_all_bboxes_refuted :
+  exists cfg ep u,
+    base_ok cfg = true /\ options_valid ep = true /\ args_finite ep = true /\
+    url_of cfg ep = Ok u /\ request_ok cfg ep u = false.
+Proof. exact url_matches_spec_strict_refuted. Qed.
+Print Assumptions C20_url_matches_spec_all_bboxes_refuted.
+
+(* 4. exactly one GET, limiter first.  With valid options the request trace is: Wait (when a
+      limiter is set) then one GET of the URL of statement 1; a failing Wait ends the call
+      before any request. *)
+Theorem C20_one_get_after_wait : forall cfg lim ep resp,
+  options_valid ep = true ->
+  exists u, url_of cfg ep = Ok u /\
+    o_trace (call cfg lim ep resp) =
+    match lim with
+    | NoLimiter => [EvRequest "GET" u]
+    | LimiterOk => [EvWait; EvRequest "GET" u]
+    | LimiterFails => [EvWait]
+    end.
+Proof.
+  intros cfg lim ep resp Hv. exists (explicit_url cfg ep). split.
+  - exact (url_of_explicit cfg ep Hv).
+  - rewrite (call_trace cfg lim ep resp Hv). destruct lim; reflexivity.
+Qed.
+Print Assumptions C20_one_get_after_wait.
+
+(* limiter_waits_first, as a statement about positions in the trace *)
+Theorem C20_limiter_waits_first : forall cfg lim ep resp m u,
+  lim <> NoLimiter -> In (EvRequest m u) (o_trace (call cfg lim ep resp)) ->
+  exists rest, o_trace (call cfg lim ep resp) = EvWait :: rest /\ lim = LimiterOk.
+Proof.
+  intros cfg lim ep resp m u Hl Hin. destruct (options_valid ep) eqn:Hv.
+  - rewrite (call_trace cfg lim ep resp Hv) in *. destruct lim; [congruence| |].
+    + eexists; split; reflexivity.
+    + destruct Hin as [E|[]]; discriminate.
+  - rewrite (call_invalid cfg lim ep resp Hv) in Hin. destruct Hin.
+Qed.
+Print Assumptions C20_limiter_waits_first.
+
+(* 5. an invalid option (limit outside 1..10000) or a failing limiter: nothing reaches the
+      server, the call returns an ordinary error and no data *)
+Theorem C20_no_request_without_permission : forall cfg lim ep resp,
+  options_valid ep = false \/ lim = LimiterFails ->
+  let o := call cfg lim ep resp in
+  (forall m u, ~ In (EvRequest m u) (o_trace o)) /\
+  class_of (o_err o) = COther /\ not_found (o_err o) = false /\ o_data o = None.
+Proof. exact call_no_request. Qed.
+Print Assumptions C20_no_request_without_permission.
+
+(* 6. status_classes_distinct: the status chain read from getFromAPI realises the documented
+      classes, for EVERY integer status: 200 is the only success, 404/403/410/414 each have
+      their own class, every other code is "unexpected status", none is an untyped error *)
+Theorem C20_status_classes_distinct : forall code,
+  let c := class_of (status_error code) in
+  (c = CNone <-> code = 200) /\ (c = CNotFound <-> code = 404) /\
+  (c = CForbidden <-> code = 403) /\ (c = CGone <-> code = 410) /\
+  (c = CURITooLong <-> code = 414) /\
+  (c = CUnexpected <-> code <> 200 /\ code <> 404 /\ code <> 403 /\ code <> 410 /\ code <> 414) /\
+  c <> COther.
+Proof. intros code. cbv zeta. rewrite status_error_class. exact (status_class_cases code). Qed.
+Print Assumptions C20_status_classes_distinct.
+
+(* 7. not_found_iff_404: Datasource.NotFound(err) is true exactly when a request was made and
+      answered 404 — for every call, limiter mode, response *)
+Theorem C20_not_found_iff_404 : forall cfg lim ep resp,
+  not_found (o_err (call cfg lim ep resp)) = true <->
+  (options_valid ep = true /\ lim <> LimiterFails /\ r_status resp = 404).
+Proof. exact not_found_iff. Qed.
+Print Assumptions C20_not_found_iff_404.
+
+(* 8. non_200_never_returns_data, whatever the body contains *)
+Theorem C20_non_200_never_returns_data : forall cfg lim ep resp,
+  r_status resp <> 200 ->
+  let o := call cfg lim ep resp in o_data o = None /\ o_err o <> None.
+Proof. exact non_200_no_data. Qed.
+Print Assumptions C20_non_200_never_returns_data.
+
+(* 9. the result is the documented one for every response: the typed error of the status, an
+      ordinary error for an unreadable body or a wrong element count, otherwise exactly the
+      elements of the response that the call is about, in order *)
+Theorem C20_result_matches_response : forall cfg lim ep resp,
+  options_valid ep = true -> lim <> LimiterFails ->
+  let o := call cfg lim ep resp in
+  match spec_result ep resp with
+  | XData l => o_err o = None /\ o_data o = Some l
+  | XErr c => class_of (o_err o) = c /\ o_data o = None
+  end.
+Proof. exact call_result. Qed.
+Print Assumptions C20_result_matches_response.
+
+(* 10. single_element_calls_reject_other_counts: Node, Way, Relation, their Version calls,
+       Changeset(WithDiscussion), Note, User return the one element of their kind, and fail
+       on 0 or >= 2 of them, whatever other elements surround them *)
+Theorem C20_single_element_calls_reject_other_counts : forall cfg lim ep els,
+  options_valid ep = true -> lim <> LimiterFails -> expect_one ep = true ->
+  let o := call cfg lim ep {| r_status := 200; r_body := BOsm els |} in
+  exists k, shape_of ep = One k /\
+  ((count_kind k els = 1 ->
+      exists id, filter (fun e => fst e =? k) els = [(k, id)] /\
+                 o_err o = None /\ o_data o = Some [(k, id)])
+   /\ (count_kind k els <> 1 -> class_of (o_err o) = COther /\ o_data o = None)).
+Proof. exact expect_one_counts. Qed.
+Print Assumptions C20_single_element_calls_reject_other_counts.
+
+(* 11. the model is total on the property's domain: no configuration falls outside it, and no
+       call indexes an empty result *)
+Theorem C20_model_covers_every_call : forall cfg lim ep resp,
+  o_bad (call cfg lim ep resp) = false /\ o_panic (call cfg lim ep resp) = false.
+Proof. exact call_covered. Qed.
+Print Assumptions C20_model_covers_every_call.
+
+(* 12. text layer facts used above, for all byte strings / all finite floats *)
+Theorem C20_query_escape_roundtrip : forall q, query_unescape (query_escape q) = Some q.
+Proof. exact escape_roundtrip. Qed.
+Print Assumptions C20_query_escape_roundtrip.
+
+Theorem C20_percent_f_reads_back : forall x, finite x = true ->
+  read_decimal (fmt_f x) = Some (f_neg x, scaled 6 x, 6%nat) /\
+  coord_faithful false x (f_neg x, scaled 6 x, 6%nat) = true.
+Proof. intros x H. split; [exact (fmt_f_read x H)|exact (scaled_lax x H)]. Qed.
+Print Assumptions C20_percent_f_reads_back.
+
+(* 13. the endpoint inductive covers every exported Datasource method of the current source *)
+Theorem C20_every_exported_method_is_modelled :
+  forallb (fun m => existsb (fun ep => String.eqb (method_name ep) (m_name m)) representatives)
+          GenOsmapi.methods = true
+  /\ List.length GenOsmapi.methods = List.length representatives.
+Proof. split; [exact methods_covered|exact method_count]. Qed.
+Print Assumptions C20_every_exported_method_is_modelled.
+
+(* ---------- non-vacuity ---------- *)
+
+Definition ex_bounds : bounds :=
+  let c n m e := {| f_class := 0; f_neg := n; f_m := m; f_e := e |} in
+  {| MinLon := c true 1 (-3); MinLat := c false 103 (-1); MaxLon := c false 0 0; MaxLat := c false 52 0 |}.
+Definition ex_cfg : str := lit "http://osm.test/api/0.6".
+Definition ex_ep : endpoint := Map ex_bounds [At 1451606400].
+
+Example ex_hypotheses :
+  base_ok ex_cfg = true /\ options_valid ex_ep = true /\ args_finite ex_ep = true /\
+  bbox_six_decimals ex_ep = true.
+Proof. vm_compute. repeat split. Qed.
+
+Example ex_url :
+  url_of ex_cfg ex_ep =
+  Ok (lit "http://osm.test/api/0.6/map?bbox=-0.125000,51.500000,0.000000,52.000000&at=2016-01-01T00:00:00Z").
+Proof. vm_compute. reflexivity. Qed.
+
+Example ex_search :
+  url_of [] (NotesSearch (lit "a b&c=d") [MaxDaysClosed (-1); Limit 10000]) =
+  Ok (lit "http://api.openstreetmap.org/api/0.6/notes/search?q=a+b%26c%3Dd&closed=-1&limit=10000")
+  /\ options_valid (NotesSearch (lit "a b&c=d") [Limit 10001]) = false.
+Proof. vm_compute. split; reflexivity. Qed.
+
+Example ex_multi :
+  url_of ex_cfg (Multi Way [1; -2; 9223372036854775807] []) =
+  Ok (lit "http://osm.test/api/0.6/ways?ways=1,-2,9223372036854775807").
+Proof. vm_compute. reflexivity. Qed.
+
+Example ex_call_ok :
+  let o := call ex_cfg LimiterOk (Get Node 5 []) {| r_status := 200; r_body := BOsm [(2, 9); (1, 5)] |} in
+  o_trace o = [EvWait; EvRequest "GET" (lit "http://osm.test/api/0.6/node/5?")] /\
+  o_data o = Some [(1, 5)] /\ expect_one (Get Node 5 []) = true.
+Proof. vm_compute. repeat split. Qed.
+
+Example ex_call_two_nodes :
+  let o := call ex_cfg NoLimiter (Get Node 5 []) {| r_status := 200; r_body := BOsm [(1, 5); (1, 6)] |} in
+  class_of (o_err o) = COther /\ o_data o = None.
+Proof. vm_compute. split; reflexivity. Qed.
+
+Example ex_call_gone :
+  let o := call ex_cfg NoLimiter (Full FRelation 7 []) {| r_status := 410; r_body := BOsm [(3, 7)] |} in
+  class_of (o_err o) = CGone /\ not_found (o_err o) = false /\ o_data o = None.
+Proof. vm_compute. repeat split. Qed.
+
+Example ex_wait_fails :
+  o_trace (call ex_cfg LimiterFails (User 1) {| r_status := 200; r_body := BOsm [(6, 1)] |}) = [EvWait].
+Proof. vm_compute. reflexivity. Qed.
+
+Example ex_float : finite (MinLon ex_bounds) = true /\ fmt_f (MinLon ex_bounds) = lit "-0.125000".
+Proof. vm_compute. split; reflexivity. Qed.
